@@ -256,7 +256,7 @@ def mini_scenario(
         host(
             "client_2", "computer", "192.168.1.3",
             {
-                "applications": [{"type": "web-browser", "options": {"target_url": "http://arcd.com/"}}, {"type": "data-manipulation-bot", "options": {"server_ip": lan_b + ".10", "server_password": "pw", "payload": "DELETE", "port_scan_p_of_success": 1.0, "data_manipulation_p_of_success": 1.0}}],
+                "applications": [{"type": "web-browser", "options": {"target_url": "http://arcd.com/"}}, {"type": "database-client", "options": {"db_server_ip": lan_b + ".10", "server_password": "pw"}}, {"type": "data-manipulation-bot", "options": {"server_ip": lan_b + ".10", "server_password": "pw", "payload": "DELETE", "port_scan_p_of_success": 1.0, "data_manipulation_p_of_success": 1.0}}],
                 "dns_server": lan_b + ".10",
             },
         )
